@@ -199,6 +199,7 @@ func (x *Exec) havocLoop(st *State, fr *Frame, header *ssa.BasicBlock, li *loopI
 	ghosts := map[string]bool{}
 	all := false
 	x.dynCtxArgs = nil
+	x.dynCommits = nil
 	for b := range li.body[header] {
 		for _, in := range b.Instrs {
 			switch ins := in.(type) {
@@ -269,9 +270,34 @@ func (x *Exec) havocLoop(st *State, fr *Frame, header *ssa.BasicBlock, li *loopI
 		x.havocGhost(st, ghosts, false)
 	}
 	for _, a := range x.dynCtxArgs {
-		if v, ok := fr.env[a]; ok {
-			if cv, ok := v.(CtxV); ok {
-				x.routerHavoc(st, cv.H)
+		// the context may be branched inside the loop (ctx.CacheContext()): follow the definition to a handle known here
+		if h, ok := x.outerCtxHandle(fr, a, 0); ok {
+			x.routerHavoc(st, h)
+		} else {
+			for h := range st.stores {
+				x.routerHavoc(st, h)
+			}
+		}
+	}
+	if len(x.dynCtxArgs) > 0 {
+		// a commit function called in the loop writes what the branched handle accumulated into its parent
+		for _, cv := range x.dynCommits {
+			if v, ok := fr.env[cv]; ok {
+				if c, ok := v.(CommitV); ok {
+					x.routerHavoc(st, c.Parent)
+					continue
+				}
+			}
+			if ex, ok := cv.(*ssa.Extract); ok {
+				if call, ok := ex.Tuple.(*ssa.Call); ok && len(call.Call.Args) > 0 {
+					if h, ok := x.outerCtxHandle(fr, call.Call.Args[0], 0); ok {
+						x.routerHavoc(st, h)
+						continue
+					}
+				}
+			}
+			for h := range st.stores {
+				x.routerHavoc(st, h)
 			}
 		}
 	}
@@ -408,6 +434,12 @@ func (x *Exec) callWrites(cc *ssa.CallCommon, seen map[*ssa.Function]bool) (map[
 				x.dynCtxArgs = append(x.dynCtxArgs, a)
 				return out, false
 			}
+		}
+		if sig, ok := cc.Value.Type().Underlying().(*types.Signature); ok && sig.Params().Len() == 0 && sig.Results().Len() == 0 {
+			// func(): only useful for its side effect. The write-back function of a CacheContext has this type;
+			// recorded so that the caller havocs the parent handle it commits into
+			x.dynCommits = append(x.dynCommits, cc.Value)
+			return out, false
 		}
 		if sig, ok := cc.Value.Type().Underlying().(*types.Signature); ok && sig.Params().Len() <= 1 {
 			// decoder-like pure function
@@ -923,4 +955,34 @@ func (x *Exec) cellsWrittenBy(st *State, fn *ssa.Function, free []Value, cells m
 			}
 		}
 	}
+}
+
+// outerCtxHandle resolves a context value to the store handle of the nearest enclosing context known in the frame:
+// contexts derived inside a loop body (CacheContext, With* setters) are followed back to their receiver.
+func (x *Exec) outerCtxHandle(fr *Frame, v ssa.Value, depth int) (int, bool) {
+	if ev, ok := fr.env[v]; ok {
+		if cv, ok := ev.(CtxV); ok {
+			return cv.H, true
+		}
+	}
+	if depth > 8 {
+		return 0, false
+	}
+	switch d := v.(type) {
+	case *ssa.Extract:
+		if call, ok := d.Tuple.(*ssa.Call); ok && len(call.Call.Args) > 0 {
+			return x.outerCtxHandle(fr, call.Call.Args[0], depth+1)
+		}
+	case *ssa.Call:
+		if len(d.Call.Args) > 0 && isCtxType(d.Call.Args[0].Type()) {
+			return x.outerCtxHandle(fr, d.Call.Args[0], depth+1)
+		}
+	case *ssa.MakeInterface:
+		return x.outerCtxHandle(fr, d.X, depth+1)
+	case *ssa.ChangeInterface:
+		return x.outerCtxHandle(fr, d.X, depth+1)
+	case *ssa.UnOp:
+		return x.outerCtxHandle(fr, d.X, depth+1)
+	}
+	return 0, false
 }
